@@ -168,11 +168,12 @@ def internal_server_error(req, *_):
             "  </pre>\n"
             "  <hr>\n"
             "  <small><i>%s / Poor WSGI for Python ,webmaster: %s</i></small>"
-            "\n" % (req.server_software, req.server_admin))
+            "\n" % (req.server_software, html_escape(req.server_admin)))
     else:
         res.write(
             "  <hr>\n"
-            "  <small><i>webmaster: %s </i></small>\n" % req.server_admin)
+            "  <small><i>webmaster: %s </i></small>\n" %
+            html_escape(req.server_admin))
     # endif
 
     res.write(
@@ -206,7 +207,8 @@ def bad_request(req, error=None):
         "  <hr>\n"
         "  <small><i>webmaster: %s </i></small>\n"
         " </body>\n"
-        "</html>" % (req.method, html_escape(req.uri), req.server_admin))
+        "</html>" % (req.method, html_escape(req.uri),
+                     html_escape(req.server_admin)))
     return Response(content, status_code=HTTP_BAD_REQUEST)
 
 
@@ -258,7 +260,8 @@ def unauthorized(req, realm=None, stale='', error=None):
         "  <hr>\n"
         "  <small><i>webmaster: %s </i></small>\n"
         " </body>\n"
-        "</html>" % (req.method, html_escape(req.uri), req.server_admin))
+        "</html>" % (req.method, html_escape(req.uri),
+                     html_escape(req.server_admin)))
 
     return Response(content, headers=headers, status_code=HTTP_UNAUTHORIZED)
 
@@ -288,7 +291,7 @@ def forbidden(req, error=None):
         "  <hr>\n"
         "  <small><i>webmaster: %s </i></small>\n"
         " </body>\n"
-        "</html>" % (html_escape(req.uri), req.server_admin))
+        "</html>" % (html_escape(req.uri), html_escape(req.server_admin)))
     return Response(content, status_code=HTTP_FORBIDDEN)
 # enddef
 
@@ -317,7 +320,7 @@ def not_found(req, error=None):
         "  <hr>\n"
         "  <small><i>webmaster: %s </i></small>\n"
         " </body>\n"
-        "</html>" % (html_escape(req.uri), req.server_admin))
+        "</html>" % (html_escape(req.uri), html_escape(req.server_admin)))
     return Response(content, status_code=HTTP_NOT_FOUND)
 # enddef
 
@@ -347,7 +350,8 @@ def method_not_allowed(req, error=None):
         "  <hr>\n"
         "  <small><i>webmaster: %s </i></small>\n"
         " </body>\n"
-        "</html>" % (req.method, html_escape(req.uri), req.server_admin))
+        "</html>" % (req.method, html_escape(req.uri),
+                     html_escape(req.server_admin)))
     return Response(content, status_code=HTTP_METHOD_NOT_ALLOWED)
 # enddef
 
@@ -390,7 +394,7 @@ def not_implemented(req, code: Optional[int] = None, error=None):
         "  <hr>\n"
         "  <small><i>webmaster: %s </i></small>\n"
         " </body>\n"
-        "</html>" % req.server_admin)
+        "</html>" % html_escape(req.server_admin))
 
     return Response(content, status_code=HTTP_NOT_IMPLEMENTED)
 # enddef
@@ -447,7 +451,7 @@ def directory_index(req, path):  # noqa: C901
         if not os.access(fpath, os.R_OK):
             continue
 
-        fname = item + ('/' if isdir(fpath) else '')
+        fname = html_escape(item + ('/' if isdir(fpath) else ''))
         ftype = ""
 
         if isfile(fpath):
@@ -479,11 +483,11 @@ def directory_index(req, path):  # noqa: C901
         content += (
             "  <small><i>%s / Poor WSGI for Python, "
             "webmaster: %s </i></small>\n" %
-            (req.server_software, req.server_admin)
+            (req.server_software, html_escape(req.server_admin))
         )
     else:
         content += ("  <small><i>webmaster: %s </i></small>\n" %
-                    req.server_admin)
+                    html_escape(req.server_admin))
 
     content += (
         "  </body>\n"
@@ -712,7 +716,7 @@ def debug_info(req, app):
                        app_html,
                        environ_html,
                        req.server_software,
-                       req.server_admin)
+                       html_escape(req.server_admin))
 
     return content_html
 # enddef
